@@ -269,6 +269,10 @@ MUTANTS = [
       "        per_share = {}\n        for share_number in testwrite_vectors:\n"
       "            per_share[share_number] = testwrite_vectors[share_number].asdict()\n"
       "        message = {\n            \"test-write-vectors\": per_share,\n", None),
+    # ---- C23.3 the bytes read reach the return through any local
+    M("benign-read-result-via-second-local", MUT, '        f.seek(self.DATA_OFFSET+offset)\n        data = f.read(length)\n        return data\n',
+      '        f.seek(self.DATA_OFFSET+offset)\n        data = f.read(length)\n        chunk = data\n        return chunk\n', None),
+    M("benign-read-result-renamed", MUT, '        f.seek(self.DATA_OFFSET+offset)\n        data = f.read(length)\n        return data\n', '        f.seek(self.DATA_OFFSET+offset)\n        data_sa = f.read(length)\n        return data_sa\n', None),
     # ---- vanished anchor
     M("vanish-write-share-data", MUT, "    def _write_share_data(self, f, offset, data):", "    def _write_share_dataX(self, f, offset, data):",
       "ANALYSIS-ERROR"),
